@@ -334,6 +334,21 @@ pub fn all_scenarios(opts: &Opts, st: &mut Stats) -> Vec<(History, Vec<String>)>
         s.simple("cancel_ask", "alice", 1, None, true);
         out.push(s.done());
     }
+    // S14: exact half-unit ties of the pro-rata fee (F=2, Q=4: after one unit is spent F*r/Q = 1.5)
+    {
+        let mut s = Script::new("fee-ties", opts, st);
+        s.market(&Market { bid_fee: Some(("feeb", "0.5")), ask_fee: Some(("feea", "0.5")), ..Default::default() });
+        s.bid(1, "bobby", "1", 4);
+        s.ask(2, "alice", "base", "1", 4);
+        s.mtch(2, 1, "1", 1, true);
+        s.simple("reject_bid", "exec1", 1, Some(1), true);
+        s.mtch(2, 1, "1", 1, true);
+        s.simple("cancel_bid", "bobby", 1, None, true);
+        s.bid(3, "carol", "3", 2);
+        s.mtch(2, 3, "1", 1, true);
+        s.simple("expire_bid", "exec1", 3, None, true);
+        out.push(s.done());
+    }
     // S12: KF1 - pro-rata quotient formed in 28-digit decimals, at amounts where fee x quote ~ 1e27+
     {
         let mut s = Script::new("kf1-large-amount-quotient", opts, st);
